@@ -163,6 +163,12 @@ class C19:
                         V("intruder-answer", "the server sent id 0x%08X data %s to the intruder; only a DM15 'operation failed / busy' is "
                           "allowed" % (e.can_id, e.data.hex()))
                         break
+                    err = (e.data[2] | (e.data[3] << 8) | (e.data[4] << 16)) if len(e.data) >= 5 else None
+                    if status == 5 and err != 0x000002:
+                        V("intruder-answer-not-busy", "the DM15 'operation failed' sent to the intruder (data %s) carries the error "
+                          "indicator 0x%06X instead of 0x000002 (busy): it repeats what the application last passed to respond()"
+                          % (e.data.hex(), err if err is not None else -1))
+                        break
                 if to_i:
                     answered += 1
                     sigs.append((shape, p["intruder"], p["copies"], k))
